@@ -19,7 +19,13 @@ Part D (single objective).  A database is a list of n points; the record of a po
   arrival order != sort order.
 Part P (Pareto): every matrix of <= 4 points x 2 objectives over {0,1,2} x every feasibility flag vector given to
   compute_pareto_optimal_points (plus the default flags), and ParetoFront.from_optimization_problem on every
-  2-objective database of <= 2/3 points (objective missing or in {0,1,2}^2, constraint missing/satisfied/violated).
+  2-objective database of <= 3 points (objective missing or in {0,1}^2 (quick) / {0,1,2}^2 (thorough), constraint
+  missing / satisfied / violated).
+Spaces (records per point R, databases per tolerance pair = sum R^n):
+  quick    full product: [] n<=4 (R=4) | [g] n<=2 (24) | [h] n<=2 (16) | [g,h], [h,g] n<=2 (96) | [g,g2,h] n=1 (480)
+           selection   : [g] n=3 (24) | [h] n=3 (16) | [g,g2,h] n=2 (360, h reduced) | [g,h] n=3 (48) | [g,g2,h] n=3 (36)
+  thorough full product: [] n<=4 | [g], [h] n<=3 | [g,h], [h,g] n<=2 | [g,g2,h] n<=2 (480)
+           selection   : [g] n=4 (24) | [h] n=4 (16) | [g,h] n=3 (96) | [g,g2,h] n=3 (96) | [g,h] n=4 (32)
 
 Oracle = transcription of the statement, written on plain Python floats (no gemseo code):
     sat(c, v)  = v recorded and every component <= tol_ineq (ineq) / |component| <= tol_eq (eq); NaN is not <=
@@ -79,7 +85,6 @@ Oracle boundaries (cases the statement leaves open: every reading is accepted, t
 from __future__ import annotations
 
 import itertools
-import math
 
 import numpy as np
 
@@ -481,7 +486,7 @@ def run_db_case(cfg: dict, tally) -> None:
         tally.violation({"invariant": "harness-error", "where": f"{type(e).__name__}: {str(e)[:80]}"}, cfg, traceback.format_exc())
         return
     key = (cfg["shape"], cfg["tol_index"], cfg["sense"], cfg["grad"], cfg["srepr"], cfg["records"])
-    tally.case(key, nontrivial=nontrivial_db(cfg["records"]), outcome=outcome, sample=cfg if (len(cfg["records"]) > 1 and cfg["shape"] and outcome.startswith(("F/tie", "I/least"))) else None)
+    tally.case(key, nontrivial=nontrivial_db(cfg["records"]), outcome=outcome, sample=cfg if (len(cfg["records"]) > 1 and len(cfg["shape"]) > 1 and cfg["sense"] == "max" and cfg["grad"] == "even" and cfg["srepr"] == "float" and outcome.startswith(("F/tie", "I/least"))) else None)
     tally.count("results_checked", 2)
     if not bad:
         return
